@@ -78,6 +78,8 @@ def linked_check(ctx, case):
                     ctx.discard("module-not-accepted:%s" % c.stage)
                     ok = False
                     break
+                if "/" in m["name"]:
+                    os.makedirs(os.path.dirname(m["name"]), exist_ok=True)
                 with open(m["name"] + ".nslir", "wb") as fh:
                     pickle.dump(c.ir, fh)
             if not ok:
